@@ -236,9 +236,13 @@ impl InnerLocustDB {
     pub fn ingest_efficient(&self, mut events: EventBuffer) {
         let (wal_size, wal_condvar) = &self.wal_size;
         // Holding wal lock ensures single-threaded ingestion
+        #[cfg(feature = "verif")]
+        crate::verif::sync::point("ingest.begin", self.verif_instance(), "");
         let mut wal_size = wal_size.lock().unwrap();
         while *wal_size > self.opts.max_wal_size_bytes {
             log::warn!("wal size limit exceeded, blocking ingestion");
+            #[cfg(feature = "verif")]
+            crate::verif::sync::point("ingest.wal_blocked", self.verif_instance(), "");
             wal_size = wal_condvar.wait(wal_size).unwrap();
         }
 
@@ -326,6 +330,8 @@ impl InnerLocustDB {
             *wal_size += bytes_written;
         }
         wal_condvar.notify_all();
+        #[cfg(feature = "verif")]
+        crate::verif::sync::point("ingest.end", self.verif_instance(), "");
     }
 
     /// Creates new partition from currently open buffer in each table, persists partitions to disk, and deletes WAL.
@@ -339,6 +345,8 @@ impl InnerLocustDB {
         // Acquire wal_size lock to block creation of new WAL segments and modifications of open buffers,
         // record the range of unflushed WAL entries, freeze table buffers, and reset WAL size.
         // After this block, ingestion is unblocked again.
+        #[cfg(feature = "verif")]
+        crate::verif::sync::point("flush.begin", self.verif_instance(), "");
         let span_freeze_buffers = tracer.start_span("freeze_buffers");
         let tables;
         let unflushed_wal_ids;
@@ -364,6 +372,8 @@ impl InnerLocustDB {
             wal_condvar.notify_all();
         }
         tracer.end_span(span_freeze_buffers);
+        #[cfg(feature = "verif")]
+        crate::verif::sync::point("flush.after_freeze", self.verif_instance(), "");
 
         // Iterate over all tables and create new partitions from frozen buffers.
         let span_batching = tracer.start_span("batching");
@@ -387,11 +397,15 @@ impl InnerLocustDB {
             }
         }
         tracer.end_span(span_batching);
+        #[cfg(feature = "verif")]
+        crate::verif::sync::point("flush.after_batching", self.verif_instance(), "");
 
         // Persist new partitions
         if let Some(storage) = self.storage.as_ref() {
             storage.persist_partitions(new_partitions, &mut tracer);
         }
+        #[cfg(feature = "verif")]
+        crate::verif::sync::point("flush.after_persist_partitions", self.verif_instance(), "");
 
         // Write new segments from compactions to storage and apply compaction in-memory
         let span_compaction = tracer.start_span("compaction");
@@ -428,13 +442,23 @@ impl InnerLocustDB {
             tracer.push_tracer(compaction_tracer);
         }
         tracer.end_span(span_compaction);
+        #[cfg(feature = "verif")]
+        crate::verif::sync::point("flush.after_compaction", self.verif_instance(), "");
 
         // Update metastore and clean up orphaned partitions and WAL segments
         if let Some(storage) = self.storage.as_ref() {
             storage.persist_metastore(unflushed_wal_ids.end, &mut tracer);
+            #[cfg(feature = "verif")]
+            crate::verif::sync::point("flush.after_persist_metastore", self.verif_instance(), "");
             storage.delete_orphaned_partitions(partitions_to_delete, &mut tracer);
+            #[cfg(feature = "verif")]
+            crate::verif::sync::point("flush.after_delete_orphans", self.verif_instance(), "");
             storage.delete_wal_segments(unflushed_wal_ids, &mut tracer);
+            #[cfg(feature = "verif")]
+            crate::verif::sync::point("flush.after_delete_wal", self.verif_instance(), "");
         }
+        #[cfg(feature = "verif")]
+        crate::verif::sync::point("flush.end", self.verif_instance(), "");
 
         tracer.end_span(span_wal_flush);
 
@@ -518,6 +542,8 @@ impl InnerLocustDB {
         let mut maybe_compaction = None;
 
         if let Some(partition) = table.batch() {
+            #[cfg(feature = "verif")]
+            crate::verif::sync::point("flush_table.after_batch", self.verif_instance(), table.name());
             let columns: Vec<_> = partition
                 .clone_column_handles()
                 .into_iter()
@@ -569,6 +595,8 @@ impl InnerLocustDB {
         let colnames = table.column_names();
         tracer.end_span(span_load_column_names);
 
+        #[cfg(feature = "verif")]
+        crate::verif::sync::point("compact.begin", self.verif_instance(), table.name());
         let span_snapshot_partitions = tracer.start_span("snapshot_partitions");
         // TODO: ensure parts is sorted correctly
         let data = table.snapshot_parts(parts);
@@ -663,6 +691,8 @@ impl InnerLocustDB {
         let span_compact_partitions = tracer.start_span("compact_partitions");
         table.compact(id, range.start, columns, parts);
         tracer.end_span(span_compact_partitions);
+        #[cfg(feature = "verif")]
+        crate::verif::sync::point("compact.after_table_compact", self.verif_instance(), table.name());
 
         // write new subpartitions to disk and update in-memory metastore
         let span_prepare_compact = tracer.start_span("prepare_compact");
@@ -678,6 +708,8 @@ impl InnerLocustDB {
             (table.name().to_string(), to_delete)
         });
         tracer.end_span(span_prepare_compact);
+        #[cfg(feature = "verif")]
+        crate::verif::sync::point("compact.after_prepare_compact", self.verif_instance(), table.name());
 
         (to_delete, tracer)
     }
@@ -856,7 +888,11 @@ impl InnerLocustDB {
                 || !pending_wal_flushes.is_empty()
                 || too_many_wal_files
             {
+                #[cfg(feature = "verif")]
+                crate::verif::sync::point("walthread.before_flush", self.verif_instance(), "");
                 self.wal_flush();
+                #[cfg(feature = "verif")]
+                crate::verif::sync::point("walthread.after_flush", self.verif_instance(), "");
                 for sender in pending_wal_flushes {
                     let _ = sender.send(());
                 }
@@ -879,6 +915,8 @@ impl InnerLocustDB {
         for sender in pending_wal_flushes_mutex.lock().unwrap().drain(..) {
             sender.send(()).unwrap();
         }
+        #[cfg(feature = "verif")]
+        crate::verif::sync::point("walthread.exit", self.verif_instance(), "");
     }
 
     fn log_metrics(self: Arc<InnerLocustDB>) {
@@ -957,6 +995,64 @@ impl InnerLocustDB {
 
     pub fn opts(&self) -> &Options {
         &self.opts
+    }
+
+    #[cfg(feature = "verif")]
+    pub fn verif_instance(&self) -> usize {
+        self as *const InnerLocustDB as usize
+    }
+
+    /// (table, partition id, offset, len, [(subpartition key, last column)]) as known to the metastore.
+    #[cfg(feature = "verif")]
+    #[allow(clippy::type_complexity)]
+    pub fn verif_catalogue(&self) -> Vec<(String, u64, usize, usize, Vec<(String, String)>)> {
+        match self.storage.as_ref() {
+            Some(storage) => storage
+                .meta_store()
+                .read()
+                .unwrap()
+                .partitions()
+                .map(|p| {
+                    (
+                        p.tablename.clone(),
+                        p.id,
+                        p.offset,
+                        p.len,
+                        p.subpartitions
+                            .iter()
+                            .map(|s| (s.subpartition_key.clone(), s.last_column.clone()))
+                            .collect(),
+                    )
+                })
+                .collect(),
+            None => vec![],
+        }
+    }
+
+    #[cfg(feature = "verif")]
+    pub fn verif_wal_size(&self) -> u64 {
+        *self.wal_size.0.lock().unwrap()
+    }
+
+    #[cfg(feature = "verif")]
+    pub fn verif_unflushed_wal_ids(&self) -> Range<u64> {
+        self.storage
+            .as_ref()
+            .map(|s| s.unflushed_wal_ids())
+            .unwrap_or(0..0)
+    }
+
+    /// (table, partition id, offset, len) of the partitions registered in memory.
+    #[cfg(feature = "verif")]
+    pub fn verif_partitions(&self) -> Vec<(String, u64, usize, usize)> {
+        let tables = self.tables.read().unwrap();
+        let mut result = vec![];
+        for table in tables.values() {
+            for p in table.partitions.read().unwrap().values() {
+                result.push((table.name().to_string(), p.id, p.range().start, p.len()));
+            }
+        }
+        result
     }
 
     pub fn disk_read_scheduler(&self) -> &Arc<DiskReadScheduler> {
@@ -1080,6 +1176,11 @@ fn subpartition(
             .collect()
     };
     (subpartition_metadata, acc.subpartitions)
+}
+
+#[cfg(feature = "verif")]
+pub fn verif_is_filesystem_safe(column_name: &str) -> bool {
+    is_filesystem_safe(column_name)
 }
 
 fn is_filesystem_safe(column_name: &str) -> bool {
